@@ -287,6 +287,10 @@ def run (ctx):
     r = reach_out(P[pname]); rsn = sites(r, RS)
     loops = [(st, h, af) for (st, h, af) in g.loop_nodes if h in r]
     good = len(rsn) == 1 and len(loops) == 1 and norm(loops[0][0].iter) in ('self.ports.items()', 'self.ports.values()', 'self.ports')
+    if not good and len(rsn) == 1 and len(loops) == 1 and isinstance(loops[0][0].iter, (ast.GeneratorExp, ast.ListComp)) and \
+       norm(loops[0][0].iter.generators[0].iter) in ('self.ports.items()', 'self.ports.values()', 'self.ports'):
+      # the exclusions are written as filters of a generator over the ports; the reachability rules below read conditions of the loop body
+      ctx.undecided('R-REG', op, "%s iterates over all ports" % pname, "loop over a filtered generator of self.ports: the filter conditions are not evaluated", op, 'D7'); continue
     ctx.ob('R-REG', op, "%s iterates over all ports" % pname, good, "loop over self.ports with one send" if good else "%s arm: loops %s sends %s" % (pname, [norm(l[0].iter) for l in loops], len(rsn)), op, 'D7')
     if not good: continue
     st, h, af = loops[0]
